@@ -1787,6 +1787,35 @@ class PrepareAst:
         if isinstance(inp, ast.Match):
             subject = cast(out.Expression, self.apply(inp.subject))
 
+            if not ObjTraits.runtime_variable(subject.result()):
+                # the subject is a compile time constant,
+                # select the matching case like a constant if statement
+                for case in inp.cases:
+                    if isinstance(case.pattern, ast.MatchAs):
+                        return out.CodeBlock([subject, self.apply(case.body)])
+
+                    assert isinstance(
+                        case.pattern, ast.MatchValue
+                    ), f"unsupported match pattern '{case.pattern}'"
+
+                    pattern = cast(out.Expression, self.apply(case.pattern))
+
+                    assert not ObjTraits.runtime_variable(
+                        pattern.result()
+                    ), "match patterns of a constant subject must be constants"
+
+                    subject_val, pattern_val = subject.result(), pattern.result()
+
+                    if is_primitive(subject_val):
+                        subject_val, pattern_val = _make_static_comparable(
+                            subject_val, pattern_val
+                        )
+
+                    if subject_val == pattern_val:
+                        return out.CodeBlock([subject, pattern, self.apply(case.body)])
+
+                return out.CodeBlock([subject])
+
             cases: list[typing.Tuple[out.Expression, out.CodeBlock]] = []
             default_body = None
 
